@@ -203,10 +203,10 @@ def resub_probe(ctx, only=None):
                         ctx.violation("ip/" + sig, f"{op}({ids}) by another task while the new session's request #{hold_at} of the re-subscription is unanswered ({'after a reconnect' if reconnect else 'first connection'}): {text}", case)
 
 
-# The probe below found a leak on the UNCHANGED library (see `resub_reply_probe`): until the coordinator has decided what to do
-# with it (repair in /repo or an entry in known_findings.json) its findings are written to the evidence (notes, distribution) and
-# do not make the check fail.  Set to True to report them through ctx.violation under ip/<signature>.
-REPORT_RESUB_REPLY = False
+# The probe below found a leak on the unchanged library (see `resub_reply_probe`): a reply to the re-subscription request of a new
+# session that cannot be processed made an exception escape `_connect_once` with the secure transport still open.  Repaired in /repo
+# (known_findings.json, status fixed, signature ip/more-than-one-open); the probe is gating.
+REPORT_RESUB_REPLY = True
 
 RESUB_REPLIES = {
     # name -> (status line, body) of the accessory's answer to the re-subscription request of a NEW session
